@@ -370,6 +370,81 @@ def work_big(_):
     return n, out
 
 
+def _seq_messages():
+    """Four generically decodable wires (reference-built) and two message objects whose encoding fails part-way through."""
+    Message, MessageHeader, DefinedMessage, UndefinedMessage, commands = libs()
+    A, D = c01.lib()
+    alpha = body_alphabet()
+    wires = [rc.enc_msg(8_000_000 + i, 0x80 if i % 2 == 0 else 0, 4, 10 + i, 20 + i, list(alpha[i:i + 1 + i % 3])) for i in range(4)]
+
+    def bad(kind):
+        m = Message()
+        m.header.command_code = 8_000_050
+        m.append_avp(A.Avp.new(264, value=b"first-avp-packs-fine"))
+        a = A.Avp(code=1)
+        if kind == "str-payload":
+            a.payload = "not bytes"         # packing the payload raises after earlier AVPs were packed
+        else:
+            a.code = 2 ** 40                # packing the code raises
+        m.append_avp(a)
+        m.append_avp(A.Avp.new(296, value=b"never-reached"))
+        return m
+    return wires, bad
+
+
+def work_sequences(_):
+    """Every sequence of length <= 3 over {encode message i (4 messages), failing encode (2 kinds)}: each successful encode of
+    a generically decoded message must reproduce its wire whatever was encoded (or failed to encode) before it."""
+    Message, MessageHeader, DefinedMessage, UndefinedMessage, commands = libs()
+    out = []
+    n = 0
+    wires, bad = _seq_messages()
+    ops = [("enc", i) for i in range(len(wires))] + [("bad", "str-payload"), ("bad", "huge-code")]
+    for L in (1, 2, 3):
+        for seq in itertools.product(ops, repeat=L):
+            if seq[-1][0] != "enc" or not any(o[0] == "bad" for o in seq):
+                continue        # (sequences of successful encodes only are covered by the body enumeration)
+            n += 1
+            msgs = [Message.from_bytes(w) for w in wires]
+            case = {"sequence": [list(o) for o in seq]}
+            try:
+                for kind, arg in seq:
+                    if kind == "bad":
+                        try:
+                            bad(arg).as_bytes()
+                            out.append(Violation("encode:unencodable-message-encoded", f"{case}", case))
+                        except Exception:
+                            pass
+                    else:
+                        got = msgs[arg].as_bytes()
+                        if got != wires[arg]:
+                            out.append(Violation("encode:result-depends-on-an-earlier-failed-encode",
+                                                 f"{case}: message {arg}: {len(got)} bytes {got.hex()[:80]} != wire {len(wires[arg])} bytes", case))
+                            break
+            except Exception as e:
+                out.append(Violation("encode:raises-after-an-earlier-failed-encode", f"{case}: {type(e).__name__}: {e}", case))
+    return n, out
+
+
+def _race_jobs():
+    Message, MessageHeader, DefinedMessage, UndefinedMessage, commands = libs()
+    wires, bad = _seq_messages()
+    m0, m1 = Message.from_bytes(wires[2]), Message.from_bytes(wires[3])
+    return [("encode-a", m0.as_bytes), ("encode-b", m1.as_bytes)]
+
+
+def _race_jobs_decode():
+    Message, MessageHeader, DefinedMessage, UndefinedMessage, commands = libs()
+    wires, bad = _seq_messages()
+    import functools as _ft
+    return [("decode-encode-a", _ft.partial(_dec_enc, wires[1])), ("encode-b", Message.from_bytes(wires[2]).as_bytes)]
+
+
+def _dec_enc(w):
+    Message = libs()[0]
+    return Message.from_bytes(w).as_bytes()
+
+
 def _call(job):
     f, a = job
     return f(a)
@@ -379,7 +454,7 @@ def run(tier):
     rep = Report("C02", tier, "exploration")
     common.pool()
     nb = len(bodies(tier))
-    jobs = [(work_header, ("alone",)), (work_header, ("product",)), (work_dispatch, None), (work_big, None)]
+    jobs = [(work_header, ("alone",)), (work_header, ("product",)), (work_dispatch, None), (work_big, None), (work_sequences, None)]
     step = 12
     for lo in range(0, nb, step):
         jobs.append((work_bodies, (lo, lo + step, True, tier)))
@@ -387,6 +462,18 @@ def run(tier):
     for n, vs in common.pmap(_call, jobs, chunksize=1):
         total += n
         rep.extend(vs)
+    # two threads encode / decode different messages at the same time (as two connections' writer and reader threads do): every
+    # interleaving with <= 1 (quick) / 2 (thorough) preemptions at call granularity inside the codec; results = sequential results
+    from .. import codecrace
+    nrace = 0
+    for name, mk in (("two-encodes", _race_jobs), ("decode+encode-vs-encode", _race_jobs_decode)):
+        r = codecrace.explore(mk, bound=2 if tier == "thorough" else 1, time_cap=300)
+        nrace += r["executions"]
+        for (key, detail), choices in r["violations"]:
+            rep.add(Violation(f"{key}", f"[{name}] schedule {choices}: {detail}", {"race": name, "choices": choices}))
+        rep.sample({"two_threads": name, "schedules": r["executions"], "distinct_outcomes": len(r["outcomes"]), "capped": r["capped"]})
+    rep.cov["schedules"] = nrace
+    total += nrace
     rep.sample({"bodies": nb, "body_alphabet": 10, "search_paths": [list(map(list, p)) for p in PATHS[:6]]})
     rep.sample({"example": "decode enc_msg(272, flags=0x10, ...) -> header fields equal the wire; find_avps((456,0),(437,0),(279,0),(268,0))"})
     rep.cov.update({"evaluations": total, "distinct_nontrivial": total, "exhaustive": True,
@@ -408,6 +495,16 @@ def replay(case):
         bs = bodies("thorough")
         i = bs.index(tuple(case["body"]))
         out += work_bodies((i, i + 1, True, "thorough"))[1]
+    elif "sequence" in case:
+        out += [v for v in work_sequences(None)[1] if v.case.get("sequence") == case["sequence"]]
+    elif "race" in case:
+        from .. import codecrace, scheddfs
+        import functools
+        mk = {"two-encodes": _race_jobs, "decode+encode-vs-encode": _race_jobs_decode}[case["race"]]
+        names = [n for n, _ in mk()]
+        seq = codecrace.sequential_results(mk)
+        obs, ch = scheddfs.replay_choices(functools.partial(codecrace._exec, mk), case["choices"])
+        out += [Violation(k, d) for k, d in codecrace._check(names, seq, obs)]
     else:
         out += work_dispatch(None)[1] + work_big(None)[1]
     return out
